@@ -25,9 +25,11 @@ import (
 // C16 — concurrent use of one state trie is linearizable (w.r.t. the map semantics and the canonical root) and race-free.
 
 type linIn struct {
-	Op  string // ins del get iter root
-	Key string
-	Val string
+	Op    string // ins del get iter root snap merge
+	Key   string
+	Val   string
+	Start string // merge: root (hex) the merged child trie was opened at
+	New   string // merge: root (hex) of the child trie after its insert
 }
 type linOut struct {
 	Val string // value / canonical content / root hex
@@ -108,6 +110,16 @@ var c16model = porcupine.Model{
 			return o.Err == "" && o.Val == s, s
 		case "root":
 			return o.Val == refRootOf(s), s
+		case "merge": // a child trie opened at root Start, one insert, merged back: compare-and-set on the whole content
+			if o.Err != "" { // rejected: the trie had moved on from Start (and is not already at the child's root)
+				return refRootOf(s) != i.Start, s
+			}
+			if refRootOf(s) == i.Start {
+				m := parseContent(s)
+				m[i.Key] = i.Val
+				return true, contentStr(m)
+			}
+			return refRootOf(s) == i.New, s // merging a child whose root equals the current root is a no-op success
 		case "snap": // GetChanges: root and the content reachable through the returned changes belong to one state
 			return o.Val == refRootOf(s) && o.Err == "content:"+s, s
 		}
@@ -116,7 +128,11 @@ var c16model = porcupine.Model{
 	Equal: func(a, b interface{}) bool { return a.(string) == b.(string) },
 	DescribeOperation: func(in, out interface{}) string {
 		i, o := in.(linIn), out.(linOut)
-		return fmt.Sprintf("%s(%s%s) -> %q %s", i.Op, i.Key, map[bool]string{true: "=" + i.Val, false: ""}[i.Val != ""], o.Val, o.Err)
+		extra := ""
+		if i.Op == "merge" {
+			extra = fmt.Sprintf(" child opened at %.8s -> %.8s", i.Start, i.New)
+		}
+		return fmt.Sprintf("%s(%s%s%s) -> %q %s", i.Op, i.Key, map[bool]string{true: "=" + i.Val, false: ""}[i.Val != ""], extra, o.Val, o.Err)
 	},
 }
 
@@ -209,7 +225,15 @@ func c16history(c *fw.Ctx) {
 		nops = 40
 	}
 	var side util.NodeDB = util.NewMemoryNodeDB()
-	m := lab.NewMPT(&jitterDB{NodeDB: util.NewMemoryNodeDB()}, c16version, nil)
+	mdb := &jitterDB{NodeDB: util.NewMemoryNodeDB()}
+	m := lab.NewMPT(mdb, c16version, nil)
+	// variants: "reopened" = the trie object is opened at the root of earlier content (updates then also produce deletes;
+	// saves go to a layered store with includeDeletes=true); "merges" = goroutines also merge child tries back
+	reopened := r.Intn(4) == 0
+	withMerges := !reopened && r.Intn(3) == 0
+	if reopened {
+		side = util.NewLevelNodeDB(util.NewMemoryNodeDB(), util.NewMemoryNodeDB(), false)
+	}
 	scripts := make([][]linIn, G)
 	ctr := 0
 	for g := 0; g < G; g++ {
@@ -218,26 +242,31 @@ func c16history(c *fw.Ctx) {
 			switch r.Intn(12) {
 			case 0, 1, 2, 3:
 				ctr++
-				scripts[g] = append(scripts[g], linIn{"ins", k, fmt.Sprintf("v%d", ctr)})
+				scripts[g] = append(scripts[g], linIn{Op: "ins", Key: k, Val: fmt.Sprintf("v%d", ctr)})
 			case 4, 5:
-				scripts[g] = append(scripts[g], linIn{"del", k, ""})
+				scripts[g] = append(scripts[g], linIn{Op: "del", Key: k})
 			case 6, 7:
-				scripts[g] = append(scripts[g], linIn{"get", k, ""})
+				scripts[g] = append(scripts[g], linIn{Op: "get", Key: k})
 			case 8:
-				scripts[g] = append(scripts[g], linIn{"iter", "", ""})
+				scripts[g] = append(scripts[g], linIn{Op: "iter"})
 			case 9:
-				scripts[g] = append(scripts[g], linIn{"root", "", ""})
+				scripts[g] = append(scripts[g], linIn{Op: "root"})
 			case 10:
-				scripts[g] = append(scripts[g], linIn{"rootc", "", ""}) // root through GetChanges
+				if withMerges {
+					ctr++
+					scripts[g] = append(scripts[g], linIn{Op: []string{"mergeC", "mergeM"}[r.Intn(2)], Key: k, Val: fmt.Sprintf("v%d", ctr)})
+				} else {
+					scripts[g] = append(scripts[g], linIn{Op: "rootc"}) // GetChanges snapshot
+				}
 			default:
-				scripts[g] = append(scripts[g], linIn{"save", "", strings.Repeat("x", r.Intn(3))}) // SaveChanges (plain / cancelled / expiring ctx) to a side store + GetChangeCount
+				scripts[g] = append(scripts[g], linIn{Op: "save", Val: strings.Repeat("x", r.Intn(3))}) // SaveChanges (plain / cancelled / expiring ctx) to a side store + GetChangeCount
 			}
 		}
 	}
 	// half of the histories start from a non-empty trie whose node cache has been committed to the block cache below
 	// (entries then live only in the lower cache layer, the way a long-lived trie is used)
 	preload := map[string]string{}
-	if r.Intn(2) == 0 {
+	if reopened || r.Intn(2) == 0 {
 		for i := 0; i < 1+r.Intn(4); i++ {
 			k := paths[r.Intn(len(paths))]
 			ctr++
@@ -248,11 +277,18 @@ func c16history(c *fw.Ctx) {
 		}
 		m.Cache().Commit()
 		c.Count("histories_with_committed_node_cache", 1)
+		if reopened {
+			m = lab.NewMPT(mdb, c16version, m.GetRoot())
+			c.Count("histories_on_a_reopened_trie", 1)
+		}
+	}
+	if withMerges {
+		c.Count("histories_with_merges", 1)
 	}
 	var mu sync.Mutex
 	var ops []porcupine.Operation
 	for k, v := range preload { // the preload enters the history as completed sequential inserts
-		ops = append(ops, porcupine.Operation{ClientId: G + 1, Input: linIn{"ins", k, v}, Call: int64(-1000 + len(ops)*2), Output: linOut{}, Return: int64(-999 + len(ops)*2)})
+		ops = append(ops, porcupine.Operation{ClientId: G + 1, Input: linIn{Op: "ins", Key: k, Val: v}, Call: int64(-1000 + len(ops)*2), Output: linOut{}, Return: int64(-999 + len(ops)*2)})
 	}
 	start := time.Now()
 	gate := make(chan struct{})
@@ -288,7 +324,36 @@ func c16history(c *fw.Ctx) {
 					o.Val = contentStr(sm)
 				case "root":
 					o.Val = fmt.Sprintf("%x", []byte(m.GetRoot()))
+				case "mergeC", "mergeM":
+					startRoot := append([]byte(nil), m.GetRoot()...)
+					child := lab.NewMPT(util.NewLevelNodeDB(util.NewMemoryNodeDB(), m.GetNodeDB(), false), c16version, startRoot)
+					if _, cerr := child.Insert(util.Path(op.Key), &lab.Val{B: []byte(op.Val)}); cerr != nil {
+						rec = false // the parent moved on under the child (a node it reads was replaced): nothing to merge
+						break
+					}
+					in.Start, in.New = fmt.Sprintf("%x", startRoot), fmt.Sprintf("%x", []byte(child.GetRoot()))
+					call = int64(time.Since(start))
+					var merr error
+					if op.Op == "mergeC" {
+						newRoot, changes, deletes, sr := child.GetChanges()
+						merr = m.MergeChanges(newRoot, changes, deletes, sr)
+					} else {
+						merr = m.MergeMPTChanges(child)
+					}
+					if merr != nil {
+						o.Err = "rejected"
+						c.Count("merges_rejected", 1)
+					} else {
+						c.Count("merges_accepted", 1)
+					}
+					in.Op = "merge"
 				case "rootc":
+					if reopened { // nodes from before the re-open are not pending changes: only the root is judged
+						root, _, _, _ := m.GetChanges()
+						o.Val = fmt.Sprintf("%x", []byte(root))
+						in.Op = "root"
+						break
+					}
 					// GetChanges must be an atomic snapshot: the trie started empty, so every node reachable from the
 					// returned root must be among the returned changes, and the content read from them is the state
 					root, changes, _, _ := m.GetChanges()
@@ -299,14 +364,14 @@ func c16history(c *fw.Ctx) {
 					_ = m.GetChangeCount()
 					switch len(op.Val) % 3 {
 					case 0:
-						_ = m.SaveChanges(context.Background(), side, false)
+						_ = m.SaveChanges(context.Background(), side, reopened)
 					case 1: // already cancelled: SaveChanges returns at once, the saver goroutine keeps running concurrently with writers
 						cctx, cancel := context.WithCancel(context.Background())
 						cancel()
-						_ = m.SaveChanges(cctx, side, false)
+						_ = m.SaveChanges(cctx, side, reopened)
 					default:
 						cctx, cancel := context.WithTimeout(context.Background(), 20*time.Microsecond)
-						_ = m.SaveChanges(cctx, side, false)
+						_ = m.SaveChanges(cctx, side, reopened)
 						cancel()
 					}
 					rec = false
@@ -329,10 +394,15 @@ func c16history(c *fw.Ctx) {
 	for k, v := range got {
 		sm[k] = string(v)
 	}
-	ops = append(ops, porcupine.Operation{ClientId: G, Input: linIn{"iter", "", ""}, Call: t1, Output: linOut{Val: contentStr(sm), Err: errClass(err)}, Return: t1 + 1})
-	ops = append(ops, porcupine.Operation{ClientId: G, Input: linIn{"root", "", ""}, Call: t1 + 2, Output: linOut{Val: fmt.Sprintf("%x", []byte(m.GetRoot()))}, Return: t1 + 3})
+	ops = append(ops, porcupine.Operation{ClientId: G, Input: linIn{Op: "iter"}, Call: t1, Output: linOut{Val: contentStr(sm), Err: errClass(err)}, Return: t1 + 1})
+	ops = append(ops, porcupine.Operation{ClientId: G, Input: linIn{Op: "root"}, Call: t1 + 2, Output: linOut{Val: fmt.Sprintf("%x", []byte(m.GetRoot()))}, Return: t1 + 3})
 	// a save of the final state to a fresh store must be complete: a fresh trie on it reads the final content
 	fresh := util.NewMemoryNodeDB()
+	if reopened { // the pending changes of a re-opened trie are a difference: save them on top of a copy of its store
+		_ = mdb.NodeDB.Iterate(context.Background(), func(ctx context.Context, key util.Key, node util.Node) error {
+			return fresh.PutNode(key, node)
+		})
+	}
 	if serr := m.SaveChanges(context.Background(), fresh, false); serr != nil {
 		c.Violate("", "final SaveChanges failed: %v", serr)
 	} else {
@@ -574,11 +644,11 @@ func init() {
 		Race:  true,
 		Rule: "histories: 3..6 goroutines x 4..8 (quick) / 4..11 (thorough) operations (insert with globally unique value, delete, lookup, full Iterate, GetRoot, GetChanges as a snapshot (root plus the content reachable through the returned change set, which must belong to one state), SaveChanges with a plain, an already cancelled and a 20 µs context + GetChangeCount) on 3..5 structurally colliding paths of one trie over a store wrapper that injects Gosched/µs sleeps at GetNode/PutNode/DeleteNode, " +
 			"GOMAXPROCS in {1,2,4,16}; call/return stamped at the client boundary from one monotonic clock; a final sequential Iterate+GetRoot is appended. Each history is checked offline with porcupine against a sequential map model in which Iterate must equal the whole map and every root read must equal the independent canonical root (C02 reference) of the state at its linearization point. " +
-			"half of the histories start from a preloaded trie whose node cache was committed to the lower cache layer. expired-save runs: SaveChanges with an already cancelled context followed by 5..45 inserts; the side store may only receive nodes that were pending at the call. reader runs (half with a warmed and committed node cache): 4..8 goroutines doing lookups, Iterate, HasMissingNodes, GetMissingNodeKeys on a trie whose store lacks ~20% of the nodes; results must equal the sequential results. Everything runs in the -race binary; each distinct race report (pair of outermost 0chain/common frames) is a violation. " +
+			"a quarter of the histories run on a trie object re-opened at the root of preloaded content (saves then go to a layered store with includeDeletes=true); a quarter also merge child tries back (one insert each, through MergeChanges or MergeMPTChanges), modelled as a compare-and-set on the whole content; half of the histories start from a preloaded trie whose node cache was committed to the lower cache layer. expired-save runs: SaveChanges with an already cancelled context followed by 5..45 inserts; the side store may only receive nodes that were pending at the call. reader runs (half with a warmed and committed node cache): 4..8 goroutines doing lookups, Iterate, HasMissingNodes, GetMissingNodeKeys on a trie whose store lacks ~20% of the nodes; results must equal the sequential results. Everything runs in the -race binary; each distinct race report (pair of outermost 0chain/common frames) is a violation. " +
 			"non-trivial = history with at least one update overlapping another goroutine's operation; distinct by (scripts, overlap count)",
 		Cases: func(tier string) int { h, r, e := c16layout(tier); return h + r + e },
 		Run:   runC16,
-		Floors: map[string]int64{"histories": 4500, "linearizable": 4500, "operations": 80000, "overlapping_pairs": 20000, "histories_with_overlapping_updates": 2000, "reader_runs": 200, "reader_runs_with_missing_nodes": 150, "final_saves_checked": 4500, "histories_with_committed_node_cache": 1500, "reader_runs_with_committed_node_cache": 50, "expired_save_runs": 1500,
+		Floors: map[string]int64{"histories": 4500, "linearizable": 4500, "operations": 80000, "overlapping_pairs": 20000, "histories_with_overlapping_updates": 2000, "reader_runs": 200, "reader_runs_with_missing_nodes": 150, "final_saves_checked": 4500, "histories_with_committed_node_cache": 1500, "histories_on_a_reopened_trie": 800, "histories_with_merges": 800, "merges_accepted": 500, "merges_rejected": 100, "reader_runs_with_committed_node_cache": 50, "expired_save_runs": 1500,
 			"gomaxprocs:1": 100, "gomaxprocs:16": 100},
 		Assumptions: []string{
 			"histories are small (<= 6 x 11 operations) and numerous; a porcupine timeout (30 s) would be inconclusive, never a violation",
